@@ -208,9 +208,32 @@ func checkC16Inner(c C16Case) *ev.Failure {
 		return v.Interface(), nil
 	}
 	stub := sb.NewStub(rec)
-	proc := sb.NewProcessor(stub, buildMW(c.Processor, "processor", trace)...)
-	for _, mw := range buildMW(c.Added, "added", trace) {
+	// middleware lists are handed over as slices with spare capacity, and other
+	// clients / processors are built from the same base lists afterwards: what one
+	// component was given must not be affected by what happens to the caller's slice
+	decoy := func(next frugal.InvocationHandler) frugal.InvocationHandler {
+		return func(service reflect.Value, method reflect.Method, args frugal.Arguments) frugal.Results {
+			trace.add("enter:DECOY")
+			return next(service, method, args)
+		}
+	}
+	spare := func(l []frugal.ServiceMiddleware) []frugal.ServiceMiddleware {
+		out := make([]frugal.ServiceMiddleware, len(l), len(l)+4)
+		copy(out, l)
+		return out
+	}
+	procBase := spare(buildMW(c.Processor, "processor", trace))
+	proc := sb.NewProcessor(stub, procBase...)
+	added := buildMW(c.Added, "added", trace)
+	for i, mw := range added {
+		if i == len(added)/2 {
+			// a second processor built from the same base list plus one more
+			sb.NewProcessor(sb.NewStub(&scriptedRecorder{}), append(procBase, decoy)...)
+		}
 		proc.AddMiddleware(mw)
+	}
+	if len(added) == 0 {
+		sb.NewProcessor(sb.NewStub(&scriptedRecorder{}), append(procBase, decoy)...)
 	}
 	tr, _, cleanup, err := rt.NewTransportEnv(c.Transport, "binary", proc, 1)
 	if err != nil {
@@ -218,7 +241,12 @@ func checkC16Inner(c C16Case) *ev.Failure {
 	}
 	defer cleanup()
 	pf := frugal.NewFProtocolFactory(ProtoFactory("binary"))
-	client := sb.NewClient(frugal.NewFServiceProvider(tr, pf, buildMW(c.Provider, "provider", trace)...), buildMW(c.Client, "client", trace)...)
+	provBase := spare(buildMW(c.Provider, "provider", trace))
+	clientBase := spare(buildMW(c.Client, "client", trace))
+	provider := frugal.NewFServiceProvider(tr, pf, provBase...)
+	client := sb.NewClient(provider, clientBase...)
+	// another client from the same lists (plus a decoy) must not disturb the first
+	sb.NewClient(frugal.NewFServiceProvider(tr, pf, append(provBase, decoy)...), append(clientBase, decoy)...)
 	cm := reflect.ValueOf(client).MethodByName(mb.GoName)
 	if !cm.IsValid() {
 		return ev.Failf("binding-problem", "%s: no client method %s%s", what, mb.GoName, ctxText())
